@@ -252,7 +252,7 @@ def linear_case(draw):
 
 
 @st.composite
-def pair_case(draw, variants, nmax, classes=None, high_p=False):
+def pair_case(draw, variants, nmax, classes=None, high_p=False, fine_srange=False):
     variant = draw(st.sampled_from(variants))
     need = smooth.min_valid(variant)
     s = draw(gens.series(nmin=max(4, need), nmax=nmax, vmax=8000, classes=classes))
@@ -266,8 +266,14 @@ def pair_case(draw, variants, nmax, classes=None, high_p=False):
     nd = gens.placeholder_for(s["y"], g["valid"], kind)
     case = {"variant": variant, "y": s["y"], "valid": g["valid"], "nodata": nd, "c": c, "ycls": s["cls"], "gcls": g["gcls"]}
     case = draw(params(variant, case))
+    if fine_srange and "sr" in case:
+        step = draw(st.sampled_from([0.1, 0.2, 0.25]))
+        count = draw(st.integers(10, 30))
+        case["sr"] = {"start": float(draw(st.sampled_from([-3.0, -2.0, -1.0, 0.0]))), "step": step, "count": count}
     if high_p and "p" in case:
         case["p"] = draw(st.sampled_from([0.8, 0.9, 0.95, 0.99, 0.85]))
+        if "loglam" in case and draw(st.booleans()):
+            case["loglam"] = draw(st.floats(-0.5, 1.5))  # lambda of the order 1..10: increments of the reweighting stay small
     return case
 
 
@@ -300,8 +306,8 @@ def run(ctx):
     ctx.given("offset", pair_case(smooth.VARIANTS, ctx.n(120, 200)), ctx.n(900, 12000), fn=f_off)
     # asymmetric variants on smooth low-noise data with a strong envelope: the regime where an iteration that is not run to its
     # fixed point depends on where the data sit relative to the zero start curve
-    ctx.given("offset", pair_case(["pgu", "pgu", "optvp", "wcvp", "optvplc"], ctx.n(80, 200), classes=["lownoise", "lownoise", "seasonal"], high_p=True),
-              ctx.n(500, 6000), fn=f_off)
+    ctx.given("offset", pair_case(["pgu", "pgu", "pgu", "optvp", "wcvp", "optvplc"], ctx.n(60, 200), classes=["lownoise", "low_amplitude", "low_amplitude", "low_amplitude"], high_p=True),
+              ctx.n(700, 8000), fn=f_off)
 
     @st.composite
     def tyx_case(draw):
@@ -334,4 +340,4 @@ def run(ctx):
 
     ctx.given("reverse", pair_case(sorted(smooth.REVERSIBLE), ctx.n(120, 200)), ctx.n(700, 10000), fn=f_rev)
     # the V-curve criteria must not treat the two ends of the series differently: large residuals at the first / last step
-    ctx.given("reverse", pair_case(["optv", "optvp", "optvplc"], ctx.n(80, 200), classes=["edge_outlier"]), ctx.n(400, 5000), fn=f_rev)
+    ctx.given("reverse", pair_case(["optv", "optv", "optvp", "optvplc"], ctx.n(60, 200), classes=["edge_outlier"], fine_srange=True), ctx.n(600, 6000), fn=f_rev)
